@@ -402,6 +402,204 @@ static void do_c08scan(const Frame &q, Frame &a)
   a["lens"] = ls;
 }
 
+// ------------------------------------------------------------------ C07/C01 scan
+// decode -> assemble -> decode over leading 16-bit patterns, in forked children (see c08scan).
+static std::string strip_annotation(const std::string &t)
+{
+  // "... (offset=-47)" / "... (123)" : drop one trailing parenthesised group
+  size_t e = t.find_last_not_of(' ');
+  if (e == std::string::npos || t[e] != ')') { return t; }
+  size_t b = t.rfind(" (", e);
+  if (b == std::string::npos) { return t; }
+  return t.substr(0, b);
+}
+
+static bool asm_one(const NvCpu *cpu, uint32_t addr, const std::string &text, std::string &bytes)
+{
+  std::string src = std::string(".") + cpu->name + "\n.org " + itos(addr / cpu->unit) + "\n" + text + "\n";
+  NvOpts o;
+  NvResult r;
+  nv_assemble(src, o, r);
+  bytes.clear();
+  if (r.phase != 0) { return false; }
+  for (std::map<uint32_t, NvByte>::iterator it = r.image.begin(); it != r.image.end(); ++it)
+  {
+    if (it->first < addr || it->first >= addr + 64) { return false; }
+  }
+  uint32_t a = addr;
+  while (r.image.count(a)) { bytes.push_back((char)r.image[a].data); a++; }
+  return !bytes.empty() && bytes.size() == r.image.size();
+}
+
+static void c07scan_child(const NvCpu *cpu, int lo, int hi, int step, int tails, uint32_t addr, int fd)
+{
+  Memory mem;
+  mem.endian = cpu->endian;
+  std::string out;
+  long evals = 0, unknown = 0, accepted = 0, closed = 0, stripped_ok = 0;
+  char d[64];
+  for (int p = lo; p <= hi; p += step)
+  {
+    snprintf(d, sizeof(d), "@%d\n", p);
+    out += d;
+    if (write(fd, out.data(), out.size()) < 0) { _exit(3); }
+    out.clear();
+    alarm(20);
+    for (int tail = 3 - tails; tail < 3; tail++)
+    {
+      fill(mem, addr, p, tail, false, 0);
+      std::string t;
+      int n = nv_disasm(cpu, &mem, addr, t);
+      evals++;
+      if (n <= 0 || t.empty() || t.find("???") != std::string::npos || t.find("<<UNTERMINATED>>") != std::string::npos ||
+          t.find('\n') != std::string::npos || t.find('\t') != std::string::npos)
+      {
+        unknown++;
+        continue;
+      }
+      std::string b2;
+      std::string used = t;
+      const char *mode = "plain";
+      bool ok = asm_one(cpu, addr, t, b2);
+      if (!ok)
+      {
+        std::string st = strip_annotation(t);
+        if (st != t && asm_one(cpu, addr, st, b2)) { ok = true; used = st; mode = "stripped"; stripped_ok++; }
+      }
+      if (!ok) { continue; }
+      accepted++;
+      // second decode: the re-assembled bytes followed by the original tail
+      for (size_t i = 0; i < b2.size() && i < 20; i++) { mem.write8(addr + i, (uint8_t)b2[i]); }
+      std::string t2;
+      int n2 = nv_disasm(cpu, &mem, addr, t2);
+      std::string t2c = (std::string(mode) == "stripped") ? strip_annotation(t2) : t2;
+      if (t2c == used) { closed++; }
+      else
+      {
+        out += std::string("c07_mismatch\t") + itos(p) + "\t" + itos(tail) + "\t" + mode + "\t" + used + "\t" + t2c + "\n";
+      }
+      // C01 (source c): walk the decoder over exactly the emitted bytes
+      {
+        Memory m2;
+        m2.endian = cpu->endian;
+        for (size_t i = 0; i < b2.size(); i++) { m2.write8(addr + i, (uint8_t)b2[i]); }
+        size_t cur = 0;
+        int guard = 0;
+        std::string first_text;
+        int first_len = 0;
+        while (cur < b2.size() && guard++ < 64)
+        {
+          std::string tt;
+          int nn = nv_disasm(cpu, &m2, addr + cur, tt);
+          if (guard == 1) { first_text = tt; first_len = nn; }
+          if (nn <= 0) { break; }
+          cur += nn;
+        }
+        if (cur != b2.size())
+        {
+          out += std::string("c01_walk\t") + itos(p) + "\t" + itos(tail) + "\t" + used + "\temitted=" + itos(b2.size()) +
+                 " consumed=" + itos(cur) + "\n";
+        }
+        else if (first_len == (int)b2.size() && first_text.find("???") == std::string::npos)
+        {
+          std::string b3;
+          std::string ft = first_text;
+          bool ok3 = asm_one(cpu, addr, ft, b3);
+          if (!ok3) { ft = strip_annotation(first_text); ok3 = (ft != first_text) && asm_one(cpu, addr, ft, b3); }
+          if (ok3 && b3 != b2)
+          {
+            std::string h2, h3;
+            char hx[4];
+            for (size_t i = 0; i < b2.size(); i++) { snprintf(hx, sizeof(hx), "%02x", (uint8_t)b2[i]); h2 += hx; }
+            for (size_t i = 0; i < b3.size(); i++) { snprintf(hx, sizeof(hx), "%02x", (uint8_t)b3[i]); h3 += hx; }
+            out += std::string("c01_refix\t") + itos(p) + "\t" + itos(tail) + "\t" + used + " -> " + ft + "\t" + h2 + " vs " + h3 + "\n";
+          }
+        }
+      }
+    }
+  }
+  char e[200];
+  snprintf(e, sizeof(e), "#stats\t%ld\t%ld\t%ld\t%ld\t%ld\n#done\n", evals, unknown, accepted, closed, stripped_ok);
+  out += e;
+  if (write(fd, out.data(), out.size()) < 0) { _exit(3); }
+  _exit(0);
+}
+
+static void do_c07scan(const Frame &q, Frame &a)
+{
+  const NvCpu *cpu = nv_cpu_by_name(get(q, "cpu").c_str());
+  if (cpu == NULL || cpu->disasm == NULL) { a["error"] = "unknown cpu"; return; }
+  int lo = atoi(get(q, "lo", "0").c_str());
+  int hi = atoi(get(q, "hi", "65535").c_str());
+  int step = atoi(get(q, "step", "1").c_str());
+  int tails = atoi(get(q, "tails", "1").c_str());
+  uint32_t addr = strtoul(get(q, "addr", "256").c_str(), NULL, 0);
+  std::string anomalies;
+  long st[5] = { 0, 0, 0, 0, 0 };
+  int cur = lo;
+  int forks = 0;
+  while (cur <= hi && forks < 70000)
+  {
+    int fds[2];
+    if (pipe(fds) != 0) { a["error"] = "pipe"; return; }
+    fflush(NULL);
+    pid_t pid = fork();
+    forks++;
+    if (pid == 0)
+    {
+      close(fds[0]);
+      c07scan_child(cpu, cur, hi, step, tails, addr, fds[1]);
+    }
+    close(fds[1]);
+    std::string text;
+    char buf[65536];
+    while (true)
+    {
+      ssize_t k = read(fds[0], buf, sizeof(buf));
+      if (k <= 0) { break; }
+      text.append(buf, k);
+    }
+    close(fds[0]);
+    int status = 0;
+    waitpid(pid, &status, 0);
+    int last = cur - step;
+    bool done = false;
+    size_t pos = 0;
+    while (pos < text.size())
+    {
+      size_t nl = text.find('\n', pos);
+      if (nl == std::string::npos) { break; }
+      std::string line = text.substr(pos, nl - pos);
+      pos = nl + 1;
+      if (line.empty()) { continue; }
+      if (line[0] == '@') { last = atoi(line.c_str() + 1); continue; }
+      if (line == "#done") { done = true; continue; }
+      if (line.compare(0, 6, "#stats") == 0)
+      {
+        long v[5];
+        if (sscanf(line.c_str() + 7, "%ld\t%ld\t%ld\t%ld\t%ld", &v[0], &v[1], &v[2], &v[3], &v[4]) == 5)
+        {
+          for (int i = 0; i < 5; i++) { st[i] += v[i]; }
+        }
+        continue;
+      }
+      anomalies += line + "\n";
+    }
+    if (done) { break; }
+    char d[200];
+    const char *kind = (WIFSIGNALED(status) && WTERMSIG(status) == SIGALRM) ? "hang" : "crash";
+    snprintf(d, sizeof(d), "%s\t%d\t0\tchild status %d\n", kind, last, WIFEXITED(status) ? WEXITSTATUS(status) : -WTERMSIG(status));
+    anomalies += d;
+    cur = last + step;
+  }
+  a["anomalies"] = anomalies;
+  a["evals"] = itos(st[0]);
+  a["unknown"] = itos(st[1]);
+  a["accepted"] = itos(st[2]);
+  a["closed"] = itos(st[3]);
+  a["stripped"] = itos(st[4]);
+}
+
 // ------------------------------------------------------------- range (forked)
 static void do_range(const Frame &q, Frame &a)
 {
@@ -464,6 +662,8 @@ static void do_range(const Frame &q, Frame &a)
   a["status"] = itos(WIFEXITED(status) ? WEXITSTATUS(status) : -WTERMSIG(status));
 }
 
+void do_simbatch(const Frame &q, Frame &a);   // nv_sim.cpp
+
 static void do_cpus(Frame &a)
 {
   std::string s;
@@ -494,6 +694,8 @@ int main(int argc, char *argv[])
     else if (cmd == "cpus") { do_cpus(a); }
     else if (cmd == "c08scan") { do_c08scan(q, a); }
     else if (cmd == "range") { do_range(q, a); }
+    else if (cmd == "c07scan") { do_c07scan(q, a); }
+    else if (cmd == "simbatch") { do_simbatch(q, a); }
     else if (cmd == "ping") { a["pong"] = "1"; }
     else { a["error"] = "unknown cmd"; }
     write_frame(a);
